@@ -1,6 +1,227 @@
 import Fabio.Driver.Proto
+import Fabio.Model.C15
+import Fabio.Props.C15
+import Fabio.Generated.C15
 namespace Fabio.Driver.C15
-open Lean Fabio.Driver
+open Lean Fabio.Driver Fabio.Model.C15
 
-def streams : List (String × Handler) := []
+def S (s : String) : Str := s.toList
+def J (s : Str) : Json := Json.str (String.ofList s)
+
+def isPanicJson (j : Json) : Bool := (j.getObjVal? "panic").toOption.isSome
+
+def strArr (j : Json) : Except String (List String) := do
+  let a ← j.getArr?
+  a.toList.mapM (fun x => x.getStr?)
+
+def pairArr (j : Json) : Except String (List (Str × Str)) := do
+  let a ← j.getArr?
+  a.toList.mapM (fun x => do
+    let p ← strArr x
+    match p with
+    | [k, v] => pure (S k, S v)
+    | _ => throw "pair expected")
+
+def optStr (j : Json) : Option String :=
+  match j with
+  | .str s => some s
+  | _ => none
+
+def fabioPrefixes : List Str := [S "FABIO_", []]
+
+/-! ### c15.flagtable -/
+
+def usageWord (kind : String) : String :=
+  if kind == "kvslice" then "string" else if kind == "stringslice" then "value"
+  else if kind == "floatslice" then "numlist" else kind
+
+def flagtableH : Handler := fun _ impl => do
+  let rows ← (do
+    let a ← impl.getArr?
+    a.toList.mapM (fun x => do
+      let p ← strArr x
+      match p with
+      | [k, v] => pure (k, v)
+      | _ => throw "pair expected"))
+  let model := Fabio.Generated.C15.flagTable.map (fun (n, k, _) => (String.ofList n, usageWord k))
+  let mj := Json.arr (model.map (fun (n, k) => Json.arr #[Json.str n, Json.str k])).toArray
+  let agree := model == rows
+  -- specification on the implementation's own table: no two flags share an environment variable
+  let spec := Fabio.Props.C15.noCollision fabioPrefixes (rows.map (fun r => S r.1))
+  return ({ model := mj, agree := agree, spec := spec, nontrivial := rows.length > 1,
+            tag := if !spec then "env-name-collision" else if agree then "table" else "table-differs" } : Verdict).toJson
+
+/-! ### c15.sources -/
+
+def digestsOf (j : Json) : Except String (List String) := strArr j
+
+def sourcesH : Handler := fun inp impl => do
+  let flag ← inp.getObjValAs? String "flag"
+  let valsJ ← (← inp.getObjVal? "vals").getArr?
+  let vals : List (Option String) := valsJ.toList.map optStr
+  if vals.length != 4 then throw "vals must have 4 entries"
+  let args ← pairArr (← inp.getObjVal? "args")
+  let env ← strArr (← inp.getObjVal? "env")
+  let propsJ := (inp.getObjVal? "props").toOption.getD Json.null
+  let props : Option Map ← (match propsJ with
+    | .null => pure none
+    | j => do let l ← pairArr j; pure (some l.reverse))   -- a later line overwrites an earlier one
+  let src : Sources := { cmd := args, environ := env.map S, prefixes := fabioPrefixes, props := props }
+  let ci := impl
+  if (ci.getObjVal? "harness_error").toOption.isSome then
+    return ({ model := Json.null, agree := true, spec := true, nontrivial := false, tag := "harness-skip" } : Verdict).toJson
+  if isPanicJson ci then
+    return ({ model := Json.null, agree := false, spec := false, nontrivial := true, tag := "panic" } : Verdict).toJson
+  let combined ← ci.getObjValAs? String "combined"
+  let dflt ← ci.getObjValAs? String "dflt"
+  let effJ ← (← ci.getObjVal? "eff").getArr?
+  let eff : List (Option (List String)) := effJ.toList.map (fun j => (strArr j).toOption)
+  let effAt (s c : Nat) : Option String := do
+    let row ← eff[s]?
+    let r ← row
+    r[c]?
+  -- model: ParseFlags on the raw inputs
+  let (msrc, mraw, mpanic) := match resolve (S flag) [] src with
+    | .ok (sr, raw) => (sr, raw, false)
+    | .panic _ => (Src.dflt, [], true)
+  let midx : Nat := match msrc with
+    | .cmdline => 0 | .env i => 1 + i | .props => 3 | .dflt => 4
+  let mj := Json.mkObj [("src", midx), ("raw", J mraw), ("panic", mpanic)]
+  let agree :=
+    !mpanic &&
+    (if midx == 4 then combined == dflt
+     else (effAt midx midx == some combined) && ((vals[midx]?).join == some (String.ofList mraw)))
+  -- specification, independent of the model: first source that is set wins; the same value has the same
+  -- effect through every channel
+  let setIdx := (List.range 4).filter (fun s => (vals[s]?).join.isSome)
+  let precOK := match setIdx.head? with
+    | none => combined == dflt
+    | some s => effAt s s == some combined
+  let anyPanic := combined == "panic" || dflt == "panic" ||
+    eff.any (fun r => match r with | some l => l.any (· == "panic") | none => false)
+  let equivBad : Option Nat := setIdx.findSome? (fun s =>
+    match (eff[s]?).join with
+    | none => some s
+    | some row =>
+      let ds := row.filter (· != "n/a")
+      match ds with
+      | [] => none
+      | d :: rest => if rest.all (· == d) then none else some s)
+  let spec := precOK && equivBad.isNone && !anyPanic
+  let selfEff := setIdx.filterMap (fun s => effAt s s)
+  let distinct := Fabio.Props.C15.allDistinct selfEff
+  let nontrivial := setIdx.length ≥ 2 && distinct
+  let tag :=
+    if anyPanic then "panic"
+    else if let some s := equivBad then s!"same-value-different-effect-src{s}"
+    else if !precOK then s!"precedence-expected-src{setIdx.head?.getD 4}"
+    else s!"win{setIdx.head?.getD 4}-of-{setIdx.length}"
+  return ({ model := mj, agree := agree, spec := spec, nontrivial := nontrivial, tag := tag } : Verdict).toJson
+
+/-! ### c15.kvslice -/
+
+def strLt : Str → Str → Bool
+  | [], [] => false
+  | [], _ :: _ => true
+  | _ :: _, [] => false
+  | a :: as, b :: bs => if a.toNat < b.toNat then true else if a.toNat > b.toNat then false else strLt as bs
+
+def insertSorted (x : Str × Str) : Map → Map
+  | [] => [x]
+  | y :: ys => if strLt x.1 y.1 then x :: y :: ys else y :: insertSorted x ys
+
+def sortMap (m : Map) : Map := m.foldl (fun acc x => insertSorted x acc) []
+
+def mapsJson (ms : List Map) : Json :=
+  Json.arr (ms.map (fun m => Json.arr ((sortMap m).map (fun (k, v) => Json.arr #[J k, J v])).toArray)).toArray
+
+def kvsliceH : Handler := fun inp impl => do
+  let s ← inp.getObjValAs? String "s"
+  let cs := S s
+  let outside := outsideUnquoteFragment cs
+  let m := parseKVSlice unquote cs
+  let mj : Json := match m with
+    | .panic w => Json.mkObj [("panic", w)]
+    | .ok (.error e) => Json.mkObj [("err", J e)]
+    | .ok (.ok ms) => Json.mkObj [("maps", mapsJson ms), ("nil", ms.isEmpty)]
+  let implPanic := isPanicJson impl
+  let implMaps := (impl.getObjVal? "maps").toOption
+  -- shape of the implementation's own answer: no empty map; nil exactly when there are no maps
+  let shapeOK : Bool := match implMaps with
+    | none => true
+    | some j =>
+      match j.getArr? with
+      | .error _ => false
+      | .ok a =>
+        a.all (fun mm => match mm.getArr? with | .ok kv => kv.size > 0 | .error _ => false) &&
+        ((impl.getObjValAs? Bool "nil").toOption == some (a.size == 0))
+  let spec := !implPanic && shapeOK
+  let agree := if outside then !implPanic else mj == impl
+  let tag :=
+    if implPanic then "panic"
+    else if outside then "outside-unquote-fragment"
+    else match m with
+      | .panic _ => "model-panic"
+      | .ok (.error e) =>
+        if e == S "unbalanced quotes" then "err-unbalanced-quotes"
+        else if e == S "unterminated escape sequence" then "err-unterminated-escape"
+        else if e == S "invalid escape sequence" then "err-invalid-escape"
+        else "err-unexpected-item"
+      | .ok (.ok ms) => s!"maps{ms.length}"
+  let seps := cs.filter (fun c => isSep c || isQuote c)
+  return ({ model := mj, agree := agree, spec := spec, nontrivial := seps.length ≥ 2, tag := tag } : Verdict).toJson
+
+/-! ### c15.robust -/
+
+def containsSub (hay needle : Str) : Bool :=
+  match hay with
+  | [] => needle.isEmpty
+  | _ :: t => needle.isPrefixOf hay || containsSub t needle
+
+def robustH : Handler := fun inp impl => do
+  let args ← pairArr (← inp.getObjVal? "args")
+  let env ← strArr (← inp.getObjVal? "env")
+  if (impl.getObjVal? "harness_error").toOption.isSome then
+    return ({ model := Json.null, agree := true, spec := true, nontrivial := false, tag := "harness-skip" } : Verdict).toJson
+  if isPanicJson impl then
+    return ({ model := Json.null, agree := false, spec := false, nontrivial := true, tag := "panic-in-harness" } : Verdict).toJson
+  let out ← impl.getObjValAs? String "out"
+  let msg ← impl.getObjValAs? String "msg"
+  let glob ← impl.getObjValAs? Int "glob"
+  let run ← impl.getObjValAs? String "run"
+  let propsJ := (impl.getObjVal? "props").toOption.getD Json.null
+  let props : Option Map ← (match propsJ with
+    | .null => pure none
+    | j => do let l ← pairArr j; pure (some l))
+  let src : Sources := { cmd := args, environ := env.map S, prefixes := fabioPrefixes, props := props }
+  -- model: never a panic; glob.cache.size resolved from the sources and validated
+  let r := resolve (S "glob.cache.size") (S "1000") src
+  let (mpanic, graw) := match r with
+    | .ok (_, raw) => (false, raw)
+    | .panic _ => (true, [])
+  let gval := atoiDec graw
+  let predicted : String := match gval with
+    | some n => if n ≤ 0 then "reject" else s!"size {n}"
+    | none => "unknown"
+  let mj := Json.mkObj [("panic", mpanic), ("glob", predicted)]
+  let globErr := containsSub (S msg) (S "glob.cache.size")
+  let agree := !mpanic && out != "panic" &&
+    (if out == "cfg" then
+       (match gval with | some n => n ≥ 1 && glob == n | none => true)
+     else if globErr then (match gval with | some n => n ≤ 0 | none => true)
+     else true)
+  let spec := out != "panic" && (out != "cfg" || (glob ≥ 1 && run != "panic"))
+  let noEq := env.any (fun e => !(S e).contains '=')
+  let weird := noEq || env.any (fun e => (S e).head? == some '=') || props.isSome
+  let tag :=
+    if out == "panic" then (if noEq then "panic-env-entry-without-eq" else "panic-other")
+    else if out == "cfg" then
+      (if glob ≤ 0 then "accepted-glob-cache-size-below-1" else if run == "panic" then "accepted-but-glob-cache-panics" else "cfg")
+    else if globErr then "err-glob-cache-size"
+    else if (S msg).take 11 == S "properties:" || containsSub (S msg) (S "circular") then "err-properties"
+    else "err-other"
+  return ({ model := mj, agree := agree, spec := spec, nontrivial := weird, tag := tag } : Verdict).toJson
+
+def streams : List (String × Handler) :=
+  [("c15.flagtable", flagtableH), ("c15.sources", sourcesH), ("c15.kvslice", kvsliceH), ("c15.robust", robustH)]
 end Fabio.Driver.C15
